@@ -288,7 +288,16 @@ func (bm ConnectedBitmask) XorCopy(other ConnectedBitmask) ConnectedBitmask {
 	}
 	new = append(new, bm.entries[aIdx:]...)
 	new = append(new, other.entries[bIdx:]...)
-	return ConnectedBitmask{new}
+	// the pieces are sorted and disjoint but may touch (e.g. [0,2]^[3,5]), merge those
+	res := make([]connectedBitmaskEntry, 0, len(new))
+	for _, e := range new {
+		if l := len(res); l != 0 && res[l-1].max+1 == e.min {
+			res[l-1].max = e.max
+			continue
+		}
+		res = append(res, e)
+	}
+	return ConnectedBitmask{res}
 }
 
 func (bm *ConnectedBitmask) Sub(other ConnectedBitmask) {
